@@ -102,7 +102,7 @@ Definition is_authority_end (c : N) : bool := (c =? c_slash) || (c =? c_qmark).
 Definition determine_target (method target : bytes) (headers : list bytes)
   : hres (bytes * N * bytes * bool) :=
   if h_eq_ignore_case method k_connect then
-    let '(h, p) := split_host_port target 443 in HOk (h, p, [], true)
+    let '(h, p) := split_host_port target http_default_port_connect in HOk (h, p, [], true)
   else
     let host_header := find_host_header headers in
     let lower := h_to_lower target in
@@ -120,11 +120,11 @@ Definition determine_target (method target : bytes) (headers : list bytes)
           | Some pos => (takeN pos without_scheme, dropN pos without_scheme)
           | None => (without_scheme, [c_slash])
           end in
-        (host, (if is_https then 443 else 80), path)
+        (host, (if is_https then http_default_port_https else http_default_port_http), path)
       else
         match host_header with
-        | Some h => (h, 80, target)
-        | None => ([], 80, target)
+        | Some h => (h, http_default_port_http, target)
+        | None => ([], http_default_port_http, target)
         end in
     if h_nil host then HErr
     else
@@ -198,9 +198,9 @@ Definition handle (chunks : list bytes) (eof : bool) (open_ok : bool) : list hev
       | HOk r =>
           EvOpen (hp_host r) (hp_port r) ::
           (if open_ok then
-             (if hp_connect r then [EvReply 200] else [EvSend (build_forward_request r)])
+             (if hp_connect r then [EvReply http_reply_connect_ok] else [EvSend (build_forward_request r)])
              ++ opt_send (hp_body r) ++ fwd_loop remaining
-           else [EvReply 502])
+           else [EvReply http_reply_open_failed])
       end
   | _ => []
   end.
